@@ -2,7 +2,7 @@ CONSTANTS
   MaxNodes = 4
   MaxArity = 3
   NKeys = 2
-  MCLays = {3, 8, 9, 10}
+  MCLays = {9, 10}
 SPECIFICATION Spec
 INVARIANT Algebra
 INVARIANT PerOption
